@@ -65,12 +65,24 @@ def run(P: Program, R: Report, tier: str) -> None:
                         f"{fn.short} writes pixels of a tracks segmentation directly: node set and labels can diverge", via="who-may-write")
     R.floor("R07.1", "segmentation write sites", n, 2)
     prim_methods = {m.qname: c for c in A.primitives for m in c.methods.values()}
+    from ..inline import effective_body, only_called_from
+
+    # primitives are read with the private data-model helpers they delegate to pasted in
+    eff_nodes = {}
+    for c_ in A.primitives:
+        for m_ in c_.methods.values():
+            if m_.name == "_apply":
+                eff_nodes[m_.qname] = effective_body(P, m_)
     sites = []
     for fn in P.functions.values():
         if fn.parent is not None:
             continue
-        for c in ast.walk(fn.node):
+        node_ = eff_nodes.get(fn.qname, fn.node)
+        for c in ast.walk(node_):
             if isinstance(c, ast.Call) and call_name(c) == "set_pixels" and isinstance(c.func, ast.Attribute):
+                if fn.qname not in prim_methods and fn.cls is not None and P.is_subclass(fn.cls.qname, "Tracks") and fn.name.startswith("_") \
+                        and only_called_from(P, fn, set(prim_methods)):
+                    continue  # a private helper of the data model used by primitives only: seen through the primitive
                 sites.append((fn, c))
                 R.check(fn.qname in prim_methods, "R07.1", fn, c, f"set_pixels is called from a primitive ({fn.short})",
                         f"{fn.short} paints without going through an invertible primitive", via="who-may-call")
@@ -84,6 +96,7 @@ def run(P: Program, R: Report, tier: str) -> None:
         # resolve a local defined by one assignment
         from ..resolve import Resolver as _Rs
 
+        fnode = eff_nodes.get(fn.qname, fn.node)
         rs7 = _Rs(P, fn)
         cands = [rs7.text(val)]
         if isinstance(val, ast.Name):
@@ -102,16 +115,16 @@ def run(P: Program, R: Report, tier: str) -> None:
         R.check(all(own_or_zero(x) for x in cands), "R07.2", fn, c, f"{fn.short} paints with the action's own node id or 0 ({txt})",
                 f"value painted is `{txt}`", via="dataflow")
         cls = prim_methods[fn.qname]
-        body = norm(fn.node)
+        body = norm(fnode)
         if "add_node(" in body or "remove_node(" in body:
             which = "add_node" if "add_node(" in body else "remove_node"
-            gcall = next(x for x in ast.walk(fn.node) if isinstance(x, ast.Call) and call_name(x) == which)
+            gcall = next(x for x in ast.walk(fnode) if isinstance(x, ast.Call) and call_name(x) == which)
             same = rs7.text(gcall.args[0]) == "self.node"
             want = "self.node" if which == "add_node" else "0"
             R.check(same and txt == want, "R07.3", fn, c, f"{cls.name}: {'painting' if which == 'add_node' else 'clearing'} is coupled to {which}(self.node)",
                     f"{which}({rs7.text(gcall.args[0])}) with painted value {txt}", via="dataflow")
             # the paint is conditional only on pixels being present
-            guards = [g for g in ast.walk(fn.node) if isinstance(g, ast.If) and c in list(ast.walk(g))]
+            guards = [g for g in ast.walk(fnode) if isinstance(g, ast.If) and c in list(ast.walk(g))]
             ok = all(norm(g.test) in ("self.pixels is not None", "self.pixels") for g in guards) and len(guards) <= 1
             R.check(ok, "R07.3", fn, c, f"{cls.name}: the array is written whenever pixels are present",
                     f"extra condition on the paint: {[norm(g.test) for g in guards]}", via="syntax")
@@ -120,14 +133,14 @@ def run(P: Program, R: Report, tier: str) -> None:
         ap = c.methods.get("_apply")
         if ap is None:
             continue
-        body = norm(ap.node)
+        body = norm(eff_nodes.get(ap.qname, ap.node))
         if ("add_node(" in body or "remove_node(" in body) and "self.pixels" in norm(c.node):
             R.check("set_pixels(" in body, "R07.3", ap, ap.node, f"{c.name}._apply writes the node's pixels together with the node-set change",
                     f"{c.name} changes the node set but leaves the array alone: a label without a node (or a node without label) remains", via="syntax")
     # capture: the destructive primitive remembers the pixels it clears
     for c in A.primitives:
         ap = c.methods.get("_apply")
-        if ap is not None and "remove_node(" in norm(ap.node):
+        if ap is not None and "remove_node(" in norm(eff_nodes.get(ap.qname, ap.node)):
             init = A.init_of(c)
             src = norm(init.node)
             R.check("get_pixels(" in src, "R07.3", init, init.node, f"{c.name} captures the node's pixels when none are given",
